@@ -79,7 +79,17 @@ func c01Build(items []c01Item) string {
 
 // c01Tree compares the real parser's tree for text with the reference tree,
 // and (when accepted) checks both round trips.  Returns sig,msg.
+// c01Text judges a text as written and once more with every optional blank removed (tokens that may stand next
+// to each other do: `a--b**2`, `!-x`, `1+-2`): the tree does not depend on where blanks are.
 func (c *Ctx) c01Text(s *Sub, sub, text string, enum bool) {
+	c.c01TextAsWritten(s, sub, text, enum)
+	if sq, ok := squeezeText(text); ok {
+		c.Ev.Class("squeezed")
+		c.c01TextAsWritten(s, sub, sq, enum)
+	}
+}
+
+func (c *Ctx) c01TextAsWritten(s *Sub, sub, text string, enum bool) {
 	src := []rune(text)
 	ref := reflex.Lex(src)
 	rp := refparse.Parse(ref.Toks)
